@@ -319,6 +319,19 @@ func (fr *Frame) reachCheck(st *State, ins ssa.Instruction) {
 		}
 		x.oblige(st, "reach", rc.Stmt+" only_if "+rc.Clause.Text, pos, g, rc.Clause.Tags, false)
 		rc.Clause.Label = "bound"
+		if rc.SetName != "" {
+			gc := x.ghostCell(rc.SetName)
+			if gc == nil {
+				x.vc.diag("%s: reach %q: unknown ghost variable %s", fr.fn.String(), rc.Stmt, rc.SetName)
+				continue
+			}
+			nv, err := env.evalVal(rc.SetExpr.Expr)
+			if err != nil {
+				x.vc.diag("%s: reach %q: then: %v", fr.fn.String(), rc.Stmt, err)
+				nv = x.freshVal("ghostupd", gc.ty)
+			}
+			st.cells[gc] = env.coerce(nv, gc.ty)
+		}
 	}
 }
 
